@@ -3,7 +3,7 @@ CONSTANTS
   Prefs = {"rsa", "p256", "p384"}
   AgentModes = {"ok", "nolifetime", "refuse", "none", "noremove", "noremove_once"}
   SecondFactors = {"none", "totp", "vip"}
-  AsBuilt = {"WorldReadableKey"}
+  AsBuilt = {"IgnoresRemoveFailure"}
   ServerCertifies = {"rsa", "p256", "p384", "ed25519"}
 INVARIANTS NoPrivateOnWire PrivateFilesRestricted OneCertPerLabel NewReplacesOld OfferedAreCertified
 PROPERTY OtherLabelsKept
